@@ -63,7 +63,165 @@ Lemma quiet_inert_not e : quiet e -> is_any_slash e = false.
 Proof. destruct e; cbn; try reflexivity; discriminate. Qed.
 
 (* ------------------------------------------------------------------ *)
-(* the relation *)
+(* Generic part: a reflexive, transitive relation that holds for every slash and for every
+   step that leaves bindings, supply, block time and the custody balance alone while appending
+   only inert events holds for the whole EndBlocker and for every accepted response. *)
+
+Ltac ie_auto :=
+  sproj; repeat (first [apply ext_refl | assumption | apply ext_cons; [split; reflexivity|]]).
+
+Section SlashOnly.
+Variable cfg : Params.
+Variable R : State -> State -> Prop.
+Hypothesis R_refl : forall s, R s s.
+Hypothesis R_trans : forall s1 s2 s3, R s1 s2 -> R s2 s3 -> R s1 s3.
+Hypothesis R_slash : forall s r s1, slash cfg s r = Ok s1 -> R s s1.
+Hypothesis R_inert : forall s s',
+  binds s' = binds s -> supply s' = supply s -> time s' = time s ->
+  bal s' Deposit = bal s Deposit -> ext inert (log s) (log s') -> R s s'.
+
+Ltac g_frame := apply R_inert; [reflexivity|reflexivity|reflexivity|reflexivity|ie_auto].
+
+Lemma G_emit e s : inert e -> R s (emit e s).
+Proof. intros He. apply R_inert; try reflexivity. sproj. apply ext_cons; [exact He|apply ext_refl]. Qed.
+
+Lemma G_fold {A} (f : State -> A -> State) (l : list A) s :
+  (forall s a, R s (f s a)) -> R s (fold_left f l s).
+Proof.
+  intros Hf. revert s. induction l as [|a l IH]; cbn [fold_left]; intros s; [apply R_refl|].
+  eapply R_trans; [apply Hf|apply IH].
+Qed.
+
+(* a bank send between two accounts other than the custody account *)
+Lemma G_transfer a b amt s s1 :
+  transfer a b amt s = Some s1 -> a <> Deposit -> b <> Deposit -> R s s1.
+Proof.
+  intros Et Ha Hb. pose proof (transfer_keeps_deposit _ _ _ _ _ Et Ha Hb) as Ed.
+  pose proof (transfer_frame _ _ _ _ _ Et) as Ef.
+  apply R_inert; try (rewrite Ef; reflexivity); [exact Ed|]. rewrite Ef. apply ext_refl.
+Qed.
+
+Lemma G_refund s r cons fee s1 : refund_fee s r cons fee = Some s1 -> R s s1.
+Proof.
+  intros H. apply refund_fee_inv in H. destruct H as (s0 & Et & ->).
+  eapply R_trans; [eapply G_transfer; [exact Et|discriminate|discriminate]|].
+  apply G_emit. split; reflexivity.
+Qed.
+
+Lemma G_add_earned s r prov fee s1 : add_earned_fee cfg s r prov fee = Ok s1 -> R s s1.
+Proof.
+  intros H. apply add_earned_fee_inv in H. destruct H as (s0 & o & Et & _ & _ & ->).
+  eapply R_trans; [eapply G_transfer; [exact Et|discriminate|discriminate]|]. g_frame.
+Qed.
+
+Lemma G_deactivate s r : R s (deactivate s r).
+Proof. unfold deactivate. destruct (get r (reqs s)); [g_frame|apply R_refl]. Qed.
+
+Lemma G_callback s c : R s (callback s c).
+Proof. unfold callback. destruct (get c (ctxs s)); [g_frame|apply R_refl]. Qed.
+
+Lemma G_complete_batch s c rc : R s (fst (complete_batch s c rc)).
+Proof.
+  unfold complete_batch. cbn [fst]. eapply R_trans; [|apply G_emit; split; reflexivity].
+  destruct (c_mod rc =? 0); [apply R_refl|apply G_callback].
+Qed.
+
+Lemma G_clean_batch s c n : R s (clean_batch s c n).
+Proof. unfold clean_batch. g_frame. Qed.
+
+Lemma G_expire_req s r : R s (expire_req cfg s r).
+Proof.
+  unfold expire_req.
+  destruct (get r (reqs s)) as [q|]; [|apply R_refl].
+  destruct (get (rid_ctx r) (ctxs s)) as [rc|]; [|apply R_refl].
+  eapply R_trans; [|apply G_emit; split; reflexivity].
+  eapply R_trans; [|apply G_deactivate].
+  destruct (c_super rc); [apply R_refl|].
+  assert (Hsa : R s (match slash cfg s r with Ok x => x | _ => s end)).
+  { destruct (slash cfg s r) eqn:Es; try apply R_refl. eapply R_slash; eauto. }
+  destruct (refund_fee _ r (c_cons rc) (r_fee q)) eqn:Er; [|assumption].
+  eapply R_trans; [exact Hsa|]. eapply G_refund; eauto.
+Qed.
+
+Lemma G_expire_one s c : R s (expire_one cfg s c).
+Proof.
+  unfold expire_one. set (rc := ctx_or_zero s c).
+  assert (Hp : R s (fst (if c_bdone rc then (s, rc)
+             else complete_batch (fold_left (expire_req cfg) (active_rids s c (c_counter rc)) s) c rc))).
+  { destruct (c_bdone rc); cbn [fst]; [apply R_refl|].
+    eapply R_trans; [|apply G_complete_batch]. apply G_fold. intros; apply G_expire_req. }
+  destruct (if c_bdone rc then (s, rc) else _) as [s1 rc1]. cbn [fst] in Hp.
+  eapply R_trans; [exact Hp|]. eapply R_trans; [|apply G_clean_batch].
+  destruct (c_state rc1); [destruct (c_rep rc1 && _)| |]; g_frame.
+Qed.
+
+Lemma G_issue_all s c rc n i provs : R s (issue_all s c rc n i provs).
+Proof.
+  revert s i. induction provs as [|p t IH]; cbn [issue_all]; intros s i; [apply R_refl|].
+  eapply R_trans; [|apply IH]. rewrite issue_one_eq. g_frame.
+Qed.
+
+Lemma G_initiate s c provs : R s (initiate_requests s c provs).
+Proof.
+  unfold initiate_requests. eapply R_trans; [apply G_issue_all|]. g_frame.
+Qed.
+
+Lemma G_new_one s c : R s (new_one cfg s c).
+Proof.
+  unfold new_one. set (rc := ctx_or_zero s c).
+  destruct (is_state rc Running && c_rep rc && (0 <? c_total rc) && (c_total rc <=? c_counter rc)).
+  { g_frame. }
+  match goal with |- R s (del_newq ?x c ?h) => apply (R_trans s x); [|g_frame] end.
+  destruct (is_state rc Running); [|apply R_refl].
+  set (el := filter_providers s rc (c_provs rc)).
+  destruct ((0 <? len el) && (c_thr rc <=? len el)).
+  2:{ unfold skip_batch. g_frame. }
+  assert (Hp : R s (on_paused s c rc)).
+  { unfold on_paused. destruct (c_mod rc =? 0); g_frame. }
+  destruct (c_super rc).
+  - eapply R_trans; [apply G_initiate|g_frame].
+  - destruct (transfer (User (c_cons rc)) Escrow (sum_prices el) s) as [x|] eqn:Et; [|exact Hp].
+    eapply R_trans; [eapply G_transfer; [exact Et|discriminate|discriminate]|].
+    eapply R_trans; [apply (G_emit (EvDebit c (c_cons rc) (sum_prices el))); split; reflexivity|].
+    eapply R_trans; [apply G_initiate|]. g_frame.
+Qed.
+
+Lemma G_end_blocker s : R s (end_blocker cfg s).
+Proof.
+  unfold end_blocker.
+  eapply R_trans; cycle 1; [apply G_fold; intros; apply G_new_one|].
+  apply G_fold. intros; apply G_expire_one.
+Qed.
+
+Lemma G_resp_tail s1 r who rc0 code out c rc :
+  R s1 (resp_finish (resp_mid s1 r who rc0 code out) c rc).
+Proof.
+  eapply (R_trans _ (resp_mid s1 r who rc0 code out)).
+  - unfold resp_mid. eapply R_trans; [|apply G_emit; split; reflexivity].
+    eapply (R_trans _ (deactivate (set_resps s1 (set r (mkResp who (c_cons rc0) code out) (resps s1))) r)).
+    + eapply R_trans; [|apply G_deactivate]. g_frame.
+    + g_frame.
+  - unfold resp_finish.
+    destruct (c_bresp (setc_bresp rc (c_bresp rc + 1)) =? c_breq (setc_bresp rc (c_bresp rc + 1))).
+    + eapply R_trans; [apply G_complete_batch|]. g_frame.
+    + g_frame.
+Qed.
+
+Lemma G_respond s r who code out ov ok s' :
+  h_respond cfg s r who code out ov ok = Ok s' -> R s s'.
+Proof.
+  intros H. apply respond_inv in H.
+  destruct H as (q & rc0 & s1 & rc & _ & _ & _ & _ & _ & Hset & _ & ->).
+  eapply R_trans; [|apply G_resp_tail].
+  destruct Hset as [[_ (sa & Es & Er)]|[_ Ea]].
+  - eapply R_trans; [eapply R_slash; eauto|eapply G_refund; eauto].
+  - eapply G_add_earned; eauto.
+Qed.
+
+End SlashOnly.
+
+(* ------------------------------------------------------------------ *)
+(* instance 1: the amounts *)
 
 Definition DS (s s' : State) : Prop :=
   exists d, log s' = d ++ log s /\ Forall slash_ok d
@@ -82,48 +240,20 @@ Proof.
   rewrite S2, S1, B2, B1, slashed_all_app. split; lia.
 Qed.
 
-(* nothing the deposit properties read changes, and the log grows by inert events *)
 Lemma DS_same s s' :
-  binds s' = binds s -> supply s' = supply s -> bank s' = bank s ->
-  ext inert (log s) (log s') -> DS s s'.
+  binds s' = binds s -> supply s' = supply s ->
+  bal s' Deposit = bal s Deposit -> ext inert (log s) (log s') -> DS s s'.
 Proof.
   intros Eb Es Ek (d & El & Hd). destruct (inert_sums d Hd) as (Z1 & Z2).
   exists d. split; [exact El|]. split; [eapply Forall_impl; [apply inert_slash_ok|exact Hd]|].
   split; [intros k; unfold dep_at; rewrite Eb, Z1; lia|].
-  rewrite Z2. split; [lia|]. unfold bal. rewrite Ek. lia.
+  rewrite Z2. split; lia.
 Qed.
 
-Lemma DS_core s s' : core s' = core s -> ext inert (log s) (log s') -> DS s s'.
-Proof. intros E. apply core_fields in E. destruct E as (E1 & E2 & E3 & _). now apply DS_same. Qed.
-
-Ltac ie_auto :=
-  sproj; repeat (first [apply ext_refl | assumption | apply ext_cons; [split; reflexivity|]]).
-Ltac ds_core :=
-  apply DS_core; [try reflexivity; autorewrite with core; reflexivity|ie_auto].
-
-Lemma DS_emit e s : inert e -> DS s (emit e s).
-Proof. intros He. apply DS_core; [apply core_emit|]. sproj. apply ext_cons; [exact He|apply ext_refl]. Qed.
-
-Lemma DS_fold {A} (f : State -> A -> State) (l : list A) s :
-  (forall s a, DS s (f s a)) -> DS s (fold_left f l s).
-Proof.
-  intros Hf. revert s. induction l as [|a l IH]; cbn [fold_left]; intros s; [apply DS_refl|].
-  eapply DS_trans; [apply Hf|apply IH].
-Qed.
-
-(* a bank send between two accounts other than the custody account *)
-Lemma DS_transfer a b amt s s1 :
-  transfer a b amt s = Some s1 -> a <> Deposit -> b <> Deposit -> DS s s1.
-Proof.
-  intros Et Ha Hb. pose proof (transfer_keeps_deposit _ _ _ _ _ Et Ha Hb) as Ed.
-  pose proof (transfer_frame _ _ _ _ _ Et) as Ef.
-  exists []. split; [rewrite Ef; reflexivity|]. split; [constructor|].
-  split; [intros k; unfold dep_at; rewrite Ef; cbn; lia|].
-  split; [rewrite Ef; cbn; lia|]. rewrite Ed. cbn. lia.
-Qed.
-
-(* ------------------------------------------------------------------ *)
-(* the helpers *)
+Lemma DS_inert s s' :
+  binds s' = binds s -> supply s' = supply s -> time s' = time s ->
+  bal s' Deposit = bal s Deposit -> ext inert (log s) (log s') -> DS s s'.
+Proof. intros Eb Es _. now apply DS_same. Qed.
 
 Lemma DS_slash cfg s r s1 : slash cfg s r = Ok s1 -> DS s s1.
 Proof.
@@ -141,133 +271,83 @@ Proof.
   - cbn [slashed_all fold_right slash_any]. split; lia.
 Qed.
 
-Lemma DS_refund s r cons fee s1 : refund_fee s r cons fee = Some s1 -> DS s s1.
-Proof.
-  intros H. apply refund_fee_inv in H. destruct H as (s0 & Et & ->).
-  eapply DS_trans; [eapply DS_transfer; [exact Et|discriminate|discriminate]|].
-  apply DS_emit. split; reflexivity.
-Qed.
-
-Lemma DS_add_earned cfg s r prov fee s1 : add_earned_fee cfg s r prov fee = Ok s1 -> DS s s1.
-Proof.
-  intros H. apply add_earned_fee_inv in H. destruct H as (s0 & o & Et & _ & _ & ->).
-  eapply DS_trans; [eapply DS_transfer; [exact Et|discriminate|discriminate]|]. ds_core.
-Qed.
-
-Lemma DS_deactivate s r : DS s (deactivate s r).
-Proof. apply DS_core; [apply core_deactivate|]. rewrite log_deactivate. apply ext_refl. Qed.
-
-Lemma inert_of_quiet_nodep l0 l :
-  ext (fun e => quiet e /\ is_dep_move e = false) l0 l -> ext inert l0 l.
-Proof. apply ext_weaken. intros e (Hq & Hd). split; [now apply quiet_inert_not|exact Hd]. Qed.
-
-Lemma DS_callback s c : DS s (callback s c).
-Proof. unfold callback. destruct (get c (ctxs s)); [ds_core|apply DS_refl]. Qed.
-
-Lemma DS_complete_batch s c rc : DS s (fst (complete_batch s c rc)).
-Proof.
-  unfold complete_batch. cbn [fst]. eapply DS_trans; [|apply DS_emit; split; reflexivity].
-  destruct (c_mod rc =? 0); [apply DS_refl|apply DS_callback].
-Qed.
-
-Lemma IE_complete_batch s c rc : ext inert (log s) (log (fst (complete_batch s c rc))).
-Proof.
-  unfold complete_batch, callback. cbn [fst].
-  destruct (c_mod rc =? 0); [|destruct (get c (ctxs s))]; sproj;
-    repeat (apply ext_cons; [split; reflexivity|]); apply ext_refl.
-Qed.
-
-Lemma DS_clean_batch s c n : DS s (clean_batch s c n).
-Proof. apply DS_core; [apply core_clean_batch|]. unfold clean_batch. sproj. apply ext_refl. Qed.
-
-Lemma DS_expire_req cfg s r : DS s (expire_req cfg s r).
-Proof.
-  unfold expire_req.
-  destruct (get r (reqs s)) as [q|]; [|apply DS_refl].
-  destruct (get (rid_ctx r) (ctxs s)) as [rc|]; [|apply DS_refl].
-  eapply DS_trans; [|apply DS_emit; split; reflexivity].
-  eapply DS_trans; [|apply DS_deactivate].
-  destruct (c_super rc); [apply DS_refl|].
-  assert (Hsa : DS s (match slash cfg s r with Ok x => x | _ => s end)).
-  { destruct (slash cfg s r) eqn:Es; try apply DS_refl. eapply DS_slash; eauto. }
-  destruct (refund_fee _ r (c_cons rc) (r_fee q)) eqn:Er; [|assumption].
-  eapply DS_trans; [exact Hsa|]. eapply DS_refund; eauto.
-Qed.
-
-Lemma DS_expire_one cfg s c : DS s (expire_one cfg s c).
-Proof.
-  unfold expire_one. set (rc := ctx_or_zero s c).
-  assert (Hp : DS s (fst (if c_bdone rc then (s, rc)
-             else complete_batch (fold_left (expire_req cfg) (active_rids s c (c_counter rc)) s) c rc))).
-  { destruct (c_bdone rc); cbn [fst]; [apply DS_refl|].
-    eapply DS_trans; [|apply DS_complete_batch]. apply DS_fold. intros; apply DS_expire_req. }
-  destruct (if c_bdone rc then (s, rc) else _) as [s1 rc1]. cbn [fst] in Hp.
-  eapply DS_trans; [exact Hp|]. eapply DS_trans; [|apply DS_clean_batch].
-  destruct (c_state rc1); [destruct (c_rep rc1 && _)| |]; ds_core.
-Qed.
-
-Lemma DS_issue_all s c rc n i provs : DS s (issue_all s c rc n i provs).
-Proof.
-  revert s i. induction provs as [|p t IH]; cbn [issue_all]; intros s i; [apply DS_refl|].
-  eapply DS_trans; [|apply IH]. rewrite issue_one_eq. ds_core.
-Qed.
-
-Lemma DS_initiate s c provs : DS s (initiate_requests s c provs).
-Proof.
-  unfold initiate_requests. eapply DS_trans; [apply DS_issue_all|]. ds_core.
-Qed.
-
-Lemma DS_new_one cfg s c : DS s (new_one cfg s c).
-Proof.
-  unfold new_one. set (rc := ctx_or_zero s c).
-  destruct (is_state rc Running && c_rep rc && (0 <? c_total rc) && (c_total rc <=? c_counter rc)).
-  { ds_core. }
-  match goal with |- DS s (del_newq ?x c ?h) =>
-    apply (DS_trans s x); [|ds_core] end.
-  destruct (is_state rc Running); [|apply DS_refl].
-  set (el := filter_providers s rc (c_provs rc)).
-  destruct ((0 <? len el) && (c_thr rc <=? len el)).
-  2:{ unfold skip_batch. ds_core. }
-  assert (Hp : DS s (on_paused s c rc)).
-  { unfold on_paused. destruct (c_mod rc =? 0); ds_core. }
-  destruct (c_super rc).
-  - eapply DS_trans; [apply DS_initiate|ds_core].
-  - destruct (transfer (User (c_cons rc)) Escrow (sum_prices el) s) as [x|] eqn:Et; [|exact Hp].
-    eapply DS_trans; [eapply DS_transfer; [exact Et|discriminate|discriminate]|].
-    eapply DS_trans; [apply (DS_emit (EvDebit c (c_cons rc) (sum_prices el))); split; reflexivity|].
-    eapply DS_trans; [apply DS_initiate|]. ds_core.
-Qed.
-
 Lemma DS_end_block cfg s dt : DS s (end_block cfg s dt).
 Proof.
-  unfold end_block, end_blocker.
-  eapply DS_trans; cycle 1; [ds_core|].
-  eapply DS_trans; cycle 1; [apply DS_fold; intros; apply DS_new_one|].
-  apply DS_fold. intros; apply DS_expire_one.
+  unfold end_block. eapply DS_trans; [apply (G_end_blocker cfg DS DS_refl DS_trans (DS_slash cfg) DS_inert)|].
+  apply DS_same; try reflexivity. sproj. apply ext_refl.
 Qed.
 
 Lemma DS_respond cfg s r who code out ov ok s' :
   h_respond cfg s r who code out ov ok = Ok s' -> DS s s'.
+Proof. apply (G_respond cfg DS DS_refl DS_trans (DS_slash cfg) DS_inert). Qed.
+
+(* ------------------------------------------------------------------ *)
+(* instance 2: availability and disabling time.  Within a response or an EndBlocker run (block
+   time t throughout) a binding can only go from available to unavailable, it then gets t as
+   its disabling time, and a binding whose availability is unchanged keeps its disabling time *)
+
+Definition AV (s s' : State) : Prop :=
+  time s' = time s /\ bsim (binds s) (binds s')
+  /\ forall k b b', get k (binds s) = Some b -> get k (binds s') = Some b' ->
+       (b_avail b = true -> b_avail b' = false -> b_dtime b' = time s)
+       /\ (b_avail b' = true -> b_avail b = true)
+       /\ (b_avail b' = b_avail b -> b_dtime b' = b_dtime b).
+
+Lemma AV_refl s : AV s s.
 Proof.
-  intros H. apply respond_inv in H.
-  destruct H as (q & rc0 & s1 & rc & _ & _ & _ & _ & _ & Hset & _ & ->).
-  assert (H1 : DS s s1).
-  { destruct Hset as [[_ (sa & Es & Er)]|[_ Ea]].
-    - eapply DS_trans; [eapply DS_slash; eauto|eapply DS_refund; eauto].
-    - eapply DS_add_earned; eauto. }
-  eapply DS_trans; [exact H1|].
-  pose proof (resp_tail_money s1 r who rc0 code out (rid_ctx r) rc) as Tl. cbv zeta in Tl.
-  destruct Tl as (_ & _ & _ & T4 & T5 & T6).
-  apply DS_same; try assumption.
-  pose proof (log_resp_mid s1 r who rc0 code out) as Lm.
-  set (sm := resp_mid s1 r who rc0 code out) in *.
-  apply (ext_trans inert _ (log sm)).
-  - rewrite Lm. apply ext_cons; [split; reflexivity|apply ext_refl].
-  - unfold resp_finish.
-    destruct (c_bresp (setc_bresp rc (c_bresp rc + 1)) =? c_breq (setc_bresp rc (c_bresp rc + 1))).
-    + sproj. apply IE_complete_batch.
-    + sproj. apply ext_refl.
+  split; [reflexivity|]. split; [apply bsim_refl|]. intros k b b' G G'. rewrite G in G'. injection G' as <-.
+  repeat split; auto. intros A B. congruence.
 Qed.
+
+Lemma AV_trans s1 s2 s3 : AV s1 s2 -> AV s2 s3 -> AV s1 s3.
+Proof.
+  intros (T1 & B1 & H1) (T2 & B2 & H2). split; [congruence|]. split; [eapply bsim_trans; eauto|].
+  intros k b1 b3 G1 G3. destruct (bsim_get _ _ _ _ B1 G1) as (b2 & G2 & _).
+  destruct (H1 _ _ _ G1 G2) as (A1 & A2 & A3). destruct (H2 _ _ _ G2 G3) as (C1 & C2 & C3).
+  rewrite T1 in C1. split; [|split].
+  - intros Ha Hb. destruct (b_avail b2) eqn:E2.
+    + now apply C1.
+    + rewrite C3 by congruence. now apply A1.
+  - auto.
+  - intros E. destruct (b_avail b2) eqn:E2.
+    + destruct (b_avail b1) eqn:E1; [|specialize (A2 eq_refl); discriminate].
+      rewrite C3, A3; congruence.
+    + destruct (b_avail b3) eqn:E3; [specialize (C2 eq_refl); discriminate|].
+      rewrite C3, A3; congruence.
+Qed.
+
+Lemma AV_inert s s' :
+  binds s' = binds s -> supply s' = supply s -> time s' = time s ->
+  bal s' Deposit = bal s Deposit -> ext inert (log s) (log s') -> AV s s'.
+Proof.
+  intros Eb _ Et _ _. split; [exact Et|]. rewrite Eb. split; [apply bsim_refl|].
+  intros k b b' G G'. rewrite G in G'. injection G' as <-. repeat split; auto. intros A B. congruence.
+Qed.
+
+Lemma AV_slash cfg s r s1 : slash cfg s r = Ok s1 -> AV s s1.
+Proof.
+  intros H. pose proof (sf_binds _ _ (proj1 (ff_slash _ _ _ _ H))) as Hsim.
+  destruct (C04_slash_fields cfg s r s1 H) as (q0 & rc0 & b0 & b0' & F0). cbv zeta in F0.
+  destruct F0 as (Gq0 & Grc0 & _ & _ & _ & _ & _ & _ & _ & _ & _ & _ & Hoth & _ & _ & _ & Ht & _).
+  destruct (C14_slash_disables cfg s r s1 H) as (q & rc & b & b' & F). cbv zeta in F.
+  destruct F as (Gq & Grc & Gb & Gb' & _ & _ & Hdis & Hkeep).
+  rewrite Gq0 in Gq. injection Gq as <-. rewrite Grc0 in Grc. injection Grc as <-.
+  split; [exact Ht|]. split; [exact Hsim|].
+  intros k x x' G G'. unfold BKey in *. destruct (eqb_spec k (c_svc rc0, r_prov q0)) as [->|Hn].
+  - rewrite Gb in G. injection G as <-. rewrite Gb' in G'. injection G' as <-.
+    split; [exact Hdis|]. split; [|exact Hkeep].
+    destruct (bsim_get _ _ _ _ Hsim Gb) as (y & Gy & _ & _ & Hav & _). unfold BKey in *. rewrite Gb' in Gy. injection Gy as <-.
+    exact Hav.
+  - pose proof (Hoth k Hn) as EE. rewrite EE, G in G'. injection G' as <-.
+    repeat split; auto. intros A B. congruence.
+Qed.
+
+Lemma AV_end_blocker cfg s : AV s (end_blocker cfg s).
+Proof. apply (G_end_blocker cfg AV AV_refl AV_trans (AV_slash cfg) AV_inert). Qed.
+
+Lemma AV_respond cfg s r who code out ov ok s' :
+  h_respond cfg s r who code out ov ok = Ok s' -> AV s s'.
+Proof. apply (G_respond cfg AV AV_refl AV_trans (AV_slash cfg) AV_inert). Qed.
 
 (* ------------------------------------------------------------------ *)
 (* the theorem *)
